@@ -32,6 +32,6 @@ func TestCheck(t *testing.T) {
 		Assumptions: []string{"commit versions are observed through a verif accessor of the timestamp oracle (next timestamp - 1 right after Commit returns; single driver goroutine)",
 			"CommitWith callbacks and Close racing with a commit are exercised in C37/C34, not here"},
 	}
-	pbt.Add(s, &pbt.Spec[txm.Case]{Name: "history", Gen: gen, Run: txm.Run, Quick: 640, Thorough: 30000, Shards: 16})
+	pbt.Add(s, &pbt.Spec[txm.Case]{Name: "history", Gen: gen, Run: txm.Run, Quick: 400, Thorough: 30000, Shards: 16})
 	s.Main(t)
 }
